@@ -454,3 +454,92 @@ Proof.
         -- rewrite (Hsh k o n Hin Hs). now rewrite orb_true_r.
       * rewrite (Hnb k o n Hin Hn). now rewrite !orb_true_r.
 Qed.
+
+(* ====================================================================================== *)
+(* 7. the invariant implies fmt_ok                                                         *)
+(* ====================================================================================== *)
+Lemma pyval_eqb_refl : forall a, pyval_eqb a a = true.
+Proof.
+  fix IH 1. intros [| x | x | x | x | l]; cbn [pyval_eqb].
+  - reflexivity.
+  - apply eqb_reflx.
+  - apply Z.eqb_refl.
+  - apply str_eqb_refl.
+  - apply str_eqb_refl.
+  - induction l as [|x l IHl]; [reflexivity|]. rewrite IH, IHl. reflexivity.
+Qed.
+Lemma narg_eqb_refl p : narg_eqb p p = true.
+Proof. unfold narg_eqb, arg_eqb. now rewrite !str_eqb_refl, Z.eqb_refl, pyval_eqb_refl. Qed.
+Lemma list_eqb_refl {X} (eqb : X -> X -> bool) : (forall x, eqb x x = true) -> forall l, list_eqb eqb l l = true.
+Proof. intros He. induction l as [|x l IH]; cbn [list_eqb]; [reflexivity|]. now rewrite He, IH. Qed.
+Lemma NoDup_nodupb l : NoDup l -> nodupb l = true.
+Proof.
+  induction l as [|x l IH]; intros H; cbn [nodupb]; [reflexivity|]. inversion H as [|? ? Hx Hl]; subst.
+  rewrite (IH Hl), andb_true_r. destruct (existsb (str_eqb x) l) eqn:E; [|reflexivity].
+  apply existsb_exists in E as [y [Hy Exy]]. apply str_eqb_eq in Exy. subst y. contradiction.
+Qed.
+Lemma args_all_nobase g : f_base g = None -> get_arguments_all g = f_args g.
+Proof. destruct g as [[bf|] cn co cs ar os oss hm ho]; cbn; [discriminate|reflexivity]. Qed.
+Lemma keyed_names (l : list (str * arg)) : Forall akeyed l -> map a_name (map snd l) = map fst l.
+Proof.
+  induction l as [|[k a] r IH]; intros H; [reflexivity|]. inversion H as [|? ? Hk Hr]; subst.
+  cbn [map fst snd]. rewrite (IH Hr). unfold akeyed in Hk. cbn [fst snd] in Hk. now rewrite Hk.
+Qed.
+Lemma parg_facts n : a_required (parg n) = true /\ a_multi (parg n) = false /\ arg_valid (parg n) = true.
+Proof. repeat split; reflexivity. Qed.
+
+Theorem fmt_ok_of_inv f : args_wf f -> akeys_inv f -> opts_inv f -> fmt_ok f = true.
+Proof.
+  intros [Hai Hord] Hak Hoi.
+  pose proof (args_all_nodup f Hai) as Hnd. pose proof (args_all_keyed f Hai Hak) as Hkeyed.
+  pose proof (args_valid_all f Hai) as Hval. unfold args_of in Hord, Hval.
+  destruct (opts_all_spec f Hoi) as (_ & _ & Hsep & _).
+  set (AR := get_arguments_all f) in *. set (CN := get_command_names_all f).
+  set (PN := pnames f CN 1 1).
+  destruct (pnames_spec f CN 1 1) as [Hpn Hpnd]. fold PN AR in Hpn, Hpnd. rewrite Forall_forall in Hpn.
+  set (PS := map (fun n => (n, parg n)) PN).
+  assert (map fst PS = PN) as Epk by (unfold PS; rewrite map_map; cbn [fst]; apply map_id).
+  assert (map snd PS = map parg PN) as Eps by (unfold PS; rewrite map_map; reflexivity).
+  assert (forall k, In k PN -> ~ In k (map fst AR)) as Hdisj.
+  { intros k Hk. destruct (Hpn _ Hk) as [Hfr _]. now apply shas_false_notin. }
+  assert (supdate PS AR = PS ++ AR) as Esup.
+  { apply supdate_fresh; [exact Hnd|]. intros k Hk. apply notin_sget_none. rewrite Epk. intros Hi. exact (Hdisj k Hi Hk). }
+  assert (Forall akeyed (PS ++ AR)) as Hkall.
+  { apply Forall_app. split; [|exact Hkeyed]. unfold PS. apply Forall_forall. intros x Hx.
+    apply in_map_iff in Hx as [n [<- _]]. reflexivity. }
+  assert (NoDup (map fst (PS ++ AR))) as Hndall.
+  { rewrite map_app, Epk. apply NoDup_app_intro; [exact Hpnd|exact Hnd|exact Hdisj]. }
+  assert (exists F', format_of_elements (map ECName CN ++ map (fun na => EArg (snd na)) (PS ++ AR) ++
+                                         map (fun no => EOpt (snd no)) (get_options_all f)) None = Ok F' /\
+                     get_arguments_all F' = PS ++ AR) as [F' [EF HF]].
+  { unfold format_of_elements. change (empty_builder None) with (ast [] []).
+    rewrite add_cnames_seq. cbn [app].
+    rewrite <- (map_map snd EArg), <- (map_map snd EOpt).
+    rewrite (add_args_seq CN _ (map snd (PS ++ AR)) []); cbn [app].
+    - destruct (add_opts_seq (map snd (get_options_all f)) (ast CN (map snd (PS ++ AR))) Hsep) as [g' [Eg [Hb Ha]]].
+      { intros n o _ _. reflexivity. }
+      rewrite Eg. cbn [bind]. eexists. split; [reflexivity|].
+      destruct (build_format_same g') as (Hb' & _ & Ha' & _).
+      rewrite args_all_nobase by (rewrite Hb', Hb; reflexivity).
+      rewrite Ha', Ha. cbn [ast f_args]. now apply keyed_id.
+    - rewrite keyed_names by exact Hkall. exact Hndall.
+    - rewrite map_app, Eps. apply order_ok_front; [|exact Hord].
+      apply forallb_forall. intros x Hx. apply in_map_iff in Hx as [n [<- _]]. reflexivity.
+    - rewrite map_app, forallb_app, Hval, andb_true_r, Eps.
+      apply forallb_forall. intros x Hx. apply in_map_iff in Hx as [n [<- _]]. reflexivity. }
+  unfold fmt_ok, aug_format. cbv zeta. fold CN. rewrite (pseudo_args_args f CN 1 1). fold PN PS AR.
+  rewrite Esup, EF. cbn [bind]. rewrite HF.
+  assert (length (map (fun p => (fst (fst p), snd p)) (pseudo_args f CN 1 1)) = length PS) as ->.
+  { unfold PS, PN, pnames. now rewrite !map_length. }
+  rewrite (pseudo_args_cns f CN 1 1). fold PN.
+  rewrite skipn_length_app, firstn_length_app, Epk.
+  repeat (apply andb_true_intro; split).
+  - apply list_eqb_refl. exact narg_eqb_refl.
+  - apply list_eqb_refl. exact narg_eqb_refl.
+  - apply list_eqb_refl. exact str_eqb_refl.
+  - unfold PS. apply forallb_forall. intros x Hx. apply in_map_iff in Hx as [n [<- _]]. reflexivity.
+  - apply forallb_forall. intros n Hn. destruct (Hpn _ Hn) as [Hfr _]. now rewrite Hfr.
+  - now apply NoDup_nodupb.
+  - apply forallb_forall. intros x Hx. rewrite Forall_forall in Hkall. specialize (Hkall _ Hx).
+    unfold akeyed in Hkall. rewrite Hkall. apply str_eqb_refl.
+Qed.
